@@ -640,13 +640,34 @@ fn gen_text(spec: &SchemeSpec, pool: &[MValue]) -> Vec<u8> {
             }
             b
         }
-        3 => {
-            let mut b = good.into_bytes();
-            b.push(0);
-            b.extend_from_slice(b" tail");
+        3 | 4 => {
+            // NUL bytes at a tape-chosen place of a (usually failing) text: the error message quotes the
+            // offending line, so the NUL lands at the start / middle / end of one of the formatter's chunks
+            let base = if chance(1, 2, "nul.base_bad") { "nope == 1".to_string() } else { format!("{good} !") };
+            let mut b = base.into_bytes();
+            match choose(5, "nul.where") {
+                0 => b.insert(0, 0),
+                1 => b.push(0),
+                2 => {
+                    let at = choose(b.len() + 1, "nul.at");
+                    b.insert(at, 0);
+                }
+                3 => {
+                    // second line starts with NUL
+                    let mut x = b"ssl and\n".to_vec();
+                    x.push(0);
+                    x.extend_from_slice(&b);
+                    b = x;
+                }
+                _ => {
+                    b.insert(0, 0);
+                    b.push(0);
+                    let at = choose(b.len(), "nul.at");
+                    b.insert(at, 0);
+                }
+            }
             b
         }
-        4 => format!("http.host == \"a\0b\" or {good}\0").into_bytes(),
         _ => {
             let mut b = good.into_bytes();
             b.push(0xff);
@@ -773,6 +794,18 @@ fn run(ctx: &RunCtx) -> Result<(), Violation> {
             let e = ref_builder.add_field(name, wirefilter::Type::Int).expect_err("duplicate").to_string();
             main.expect_failure("wirefilter_add_type_field_to_scheme", ok, &e)?;
         }
+    }
+    if chance(1, 3, "scheme.nulname") {
+        // a name with NUL bytes (valid UTF-8): registered through the Rust builder, redefined through the C API;
+        // the redefinition error quotes the name
+        let name: &[u8] = [&b"\0f"[..], &b"f\0"[..], &b"a\0b"[..], &b"\0"[..]][choose(4, "scheme.nulname_kind")];
+        let n = std::str::from_utf8(name).unwrap();
+        builder.add_optional_field(n, wirefilter::Type::Int).unwrap();
+        ref_builder.add_optional_field(n, wirefilter::Type::Int).unwrap();
+        let ok = ffi::wirefilter_add_type_field_to_scheme(&mut builder, name.as_ptr().cast(), name.len(), ctype_of(&MType::Int));
+        let e = ref_builder.add_field(n, wirefilter::Type::Int).expect_err("duplicate").to_string();
+        kernel::count("c20.nul_in_error");
+        main.expect_failure("wirefilter_add_type_field_to_scheme", ok, &e)?;
     }
     if chance(1, 3, "scheme.badname") {
         let bad = [b'x', 0xc3, 0x28];
